@@ -78,20 +78,20 @@ Fixpoint list_of_string (s : string) : list ascii :=
 Fixpoint string_of_rev (l : list ascii) (acc : string) : string :=
   match l with [] => acc | a :: t => string_of_rev t (String a acc) end.
 
-(* out.w--, then for out.w > dotdot && out.index(out.w) != '/' { out.w-- } *)
+(* out.w--, then for out.w > dotdot && out.index(out.w) != '/' { out.w-- }: [kept] is the
+   buffer after the decrement, [top] the byte just dropped from view (index(w)) *)
+Fixpoint pop_go (dotdot : nat) (kept : list ascii) (top : ascii) {struct kept} : list ascii :=
+  if Nat.leb (List.length kept) dotdot then kept
+  else if Ascii.eqb top slash then kept
+  else match kept with
+       | [] => []
+       | b :: k' => pop_go dotdot k' b
+       end.
+
 Definition pop_elem (out : list ascii) (dotdot : nat) : list ascii :=
   match out with
   | [] => []
-  | _ :: t =>
-      (* after w--, the loop looks at index(w), i.e. the byte just dropped from view: the
-         buffer beyond w is still there, so compare the dropped bytes one by one *)
-      (fix go (kept : list ascii) (top : ascii) : list ascii :=
-         if Nat.leb (List.length kept) dotdot then kept
-         else if Ascii.eqb top slash then kept
-         else match kept with
-              | [] => []
-              | b :: k' => go k' b
-              end) t (match out with a :: _ => a | [] => slash end)
+  | a :: t => pop_go dotdot t a
   end.
 
 (* copy bytes of one path element to the output: for ; r < n && path[r] != '/'; r++ *)
